@@ -1,4 +1,5 @@
 import GopModel.Driver.Loop
 import GopModel.Driver.TplMatch
+import GopModel.Driver.TplHelpers
 open GopModel.Driver
-def main : IO Unit := runDriver (dispatchWith [("tplm", handleTplm)])
+def main : IO Unit := runDriver (dispatchWith [("tplm", handleTplm), ("tplh", handleTplh), ("tplc", handleTplc)])
